@@ -119,8 +119,13 @@ def check_C17(run):
         lines = sel if tp != "pipe" else [x for x in sel if '"op":"PC"' not in x]
         replay_validate(run, lines, ["ctxio", "-transport", tp], "CtxIOTrace", io_trace_cfg(), "C17 cancellation / deadlines over %s" % tp,
                         nontrivial=nt, classify=io_classify("C17"), shards=16)
+    # the bridge subprocess: the Connection's own stream over the child's stdio pipes, obtained through Upgrade
+    bl = [x for x in sel if '"op":"PC"' not in x]
+    bl = bl if thorough else run.rng.sample(bl, min(len(bl), 48))
+    replay_validate(run, bl, ["ctxio", "-transport", "bridge"], "CtxIOTrace", io_trace_cfg(), "C17 cancellation / deadlines over a bridge subprocess",
+                    nontrivial=nt, classify=io_classify("C17"), shards=16)
     run.write_evidence("model_checking",
-        "schedules as for C18 but with cancellable, pre-cancelled and deadline contexts; CANCEL placed by TLC at every quiescent instant (before the call, blocked with nothing in flight, frame partially received, data buffered); transports unix socketpair, TCP loopback, in-memory pipe; each operation's result records error class, bytes, lateness (> 2 s) and ctxio helper goroutines left; non-trivial = at least one operation returned the context error",
+        "schedules as for C18 but with cancellable, pre-cancelled and deadline contexts; CANCEL placed by TLC at every quiescent instant (before the call, blocked with nothing in flight, frame partially received, data buffered); transports unix socketpair, TCP loopback, in-memory pipe, bridge subprocess (relay child; stream obtained through Connection.Upgrade); each operation's result records error class, bytes, lateness (> 2 s) and ctxio helper goroutines left; non-trivial = at least one operation returned the context error",
         exhaustive=False,
         assumptions=["'promptly' is one-sided: 2 s where the normal latency is well under 5 ms",
-                     "the bridge transport is judged separately (see DESIGN.md, known finding F11)"])
+                     "on the bridge the library's reads cannot be observed, quiescence is 'nothing happened for ~30 ms'"])
